@@ -15,13 +15,13 @@ JOPTS = ["-XX:ParallelGCThreads=2", "-XX:TieredStopAtLevel=1"]
 # ================================================================================================ C17
 
 OPNAME = dict(idx="index-assign", idxaug="index-augassign", newkey="dict-new-key", setdefault="setdefault",
-              aug="augassign", sorted="sorted", reversed="reversed", rebind="rebind")
-ONNAME = dict(L="exported-list", N="exported-list-of-lists", D="exported-dict", x="previous-result",
+              aug="augassign", sorted="sorted", reversed="reversed", rebind="rebind", concat="list-concat")
+ONNAME = dict(F="exported-list-with-spare-capacity", L="exported-list", N="exported-list-of-lists", D="exported-dict", x="previous-result",
               N0="list-nested-in-exported-list", Dk="list-nested-in-exported-dict",
               getL="global-returned-by-function", mk="constant-list-of-subinclude-function",
               dflt="constant-list-of-subinclude-function", mkdk="constant-list-of-subinclude-function",
               mkd="dict-returned-by-function")
-TGT_EXPR = dict(L="L", N="N", D="D", x="x", N0="N[0]", Dk='D["k"]', getL="getL()", mk="mk()", dflt="dflt()",
+TGT_EXPR = dict(F="F", L="L", N="N", D="D", x="x", N0="N[0]", Dk='D["k"]', getL="getL()", mk="mk()", dflt="dflt()",
                 mkd="mkd()", mkdk='mkd()["k"]')
 
 
@@ -39,14 +39,15 @@ def render_defs(d):
             "def getL():\n    return L\n"
             "def mk():\n    return %s\n"
             "def dflt(x=%s):\n    return x\n"
-            "def mkd():\n    return {\"k\": %s}\n") % (lit(d["L"]), lit(d["N"]), lit(d["Dk"]), lit(d["K"]), lit(d["K"]), lit(d["Dk"]))
+            "def mkd():\n    return {\"k\": %s}\n"
+            "F = [e for e in %s if e < 5]\n") % (lit(d["L"]), lit(d["N"]), lit(d["Dk"]), lit(d["K"]), lit(d["K"]), lit(d["Dk"]), lit(d["F"] + [5]))
 
 
-P2_SRC = ('text_file(name = "v", content = json({"L": L, "N": N, "D": D, "getL": getL(), "mk": mk(), "dflt": dflt(), "mkd": mkd()}))\n'
+P2_SRC = ('text_file(name = "v", content = json({"L": L, "N": N, "D": D, "getL": getL(), "mk": mk(), "dflt": dflt(), "mkd": mkd(), "F": F, "Fcat": F + [8]}))\n'
           'filegroup(name = "fg", srcs = ["f%d" % e for e in L], labels = ["l%d" % e for e in N[0]])\n'
           'genrule(name = "gr", srcs = ["s%d" % e for e in mk()], outs = ["o%d" % e for e in dflt()],\n'
           '        cmd = "echo " + " ".join([str(e) for e in D["k"]] + [str(e) for e in mkd()["k"]]) + " > $OUT")\n')
-PROBES = ("L", "N", "D", "getL", "mk", "dflt", "mkd")
+PROBES = ("L", "N", "D", "getL", "mk", "dflt", "mkd", "F", "Fcat")
 
 
 def expected_view(e):
@@ -78,6 +79,7 @@ def op_stmts(op, a, kind):
             "newkey": ['%s["new"] = 1' % a],
             "setdefault": ['%s.setdefault("new", 1)' % a],
             "aug": ["%s += [9]" % a],
+            "concat": ["%s = %s + [9]" % (a, a)],
             "sorted": ["%s = sorted(%s)" % (a, a)],
             "reversed": ["%s = reversed(%s)" % (a, a)]}[op]
 
@@ -90,6 +92,8 @@ def render_step(i, m):
     if via == "direct":
         if op in ("sorted", "reversed"):
             return ["x = %s(%s)" % (op, e)]
+        if op == "concat":
+            return ["x = %s + [9]" % e]
         return op_stmts(op, e, kind)
     if via == "alias":
         return ["x = %s" % e] + op_stmts(op, "x", kind)
@@ -116,6 +120,9 @@ def mkey(m):
     return "%s:%s:%s" % (m["op"], m["tgt"], m["via"])
 
 
+CONC_KINDS = {"concurrent", "e2e -n 16"}      # ways of observing a leak that need P1 and P2 to run at the same time
+
+
 def sig_of(m):
     return "via=%s on=%s" % (OPNAME[m["op"]], ONNAME[m["tgt"]])
 
@@ -123,16 +130,18 @@ def sig_of(m):
 CLAIM17 = dict(
     category="model_checking", design_ref="DESIGN.md §4 C16 C17 C18 C38 (asp semantics)",
     text="AspScopes.tla: a heap-and-handle model of two package scopes importing the same subinclude (exported list, list of lists, "
-         "dict of list, a function returning a global, a function returning a list literal, a mutable default, a dict literal holding a "
-         "list); P1 performs every TLC-enumerated sequence of <=2 (quick) / <=3 (thorough) mutation or reordering attempts (index "
-         "assignment, +=, nested +=, new dict key, setdefault, sorted, reversed, rebinding; directly, through an alias, a function "
+         "dict of list, a list with spare capacity built by a filtering comprehension, a function returning a global, a function returning "
+         "a list literal, a mutable default, a dict literal holding a list); P1 performs every TLC-enumerated sequence of <=2 (quick) / <=3 (thorough) mutation or reordering attempts (index "
+         "assignment, +=, nested +=, list + list, new dict key, setdefault, sorted, reversed, rebinding; directly, through an alias, a function "
          "argument, a comprehension variable, a loop variable, the previous result) while P2's probe reads interleave freely. TLC proves "
          "Isolation/ExportsUnchanged for the repaired design and exhibits the leaks of the code-shaped design. Every generated P1 program "
          "is rendered to BUILD text and run with the REAL interpreter in one process sharing one real subinclude(): P2 alone, P1 then P2, "
-         "P2 then P1, and P1 || P2 in goroutines; what P2 defines (probe values and filegroup/genrule attributes) must equal what it "
+         "P2 then P1, and P1 || P2 in goroutines (plus, for a sample of one-attempt programs, the real plz binary on a scratch repo with "
+         "`plz query print` -n 1 in both orders and -n 16); what P2 defines (probe values and filegroup/genrule attributes) must equal what it "
          "defines alone, which must equal the spec's Original.",
     note="Bounded: one subinclude shape with small int lists, <=3 attempts, the menu of AspScopes.tla; the concurrent variant is a "
-         "sampled schedule of real goroutines, not an enumeration. In-process binding (real parser, interpreter, subinclude builtin and "
+         "sampled schedule of real goroutines, not an enumeration (races such as the shared append cell reproduce in a fraction of a percent "
+         "of runs, so a concurrent-only leak may go unobserved in a given run). In-process binding (real parser, interpreter, subinclude builtin and "
          "Freeze; the subincluded target is registered as already built) rather than the plz binary. Trusted: TLC, the text rendering "
          "of cases in lib/engines/aspscopes.py, harness/asp_eval.go.",
     technique="TLA+ spec AspScopes.tla model-checked with TLC (interleaved P1/P2 steps); TLC-enumerated programs replayed into the real asp interpreter")
@@ -144,7 +153,8 @@ def scopes_cases(ctx):
         jobs = [("MC_AspScopes_fixed_q.cfg", False), ("MC_AspScopes_known_q.cfg", True)]
     else:
         jobs = [("MC_AspScopes_fixed.cfg", False), ("MC_AspScopes_known.cfg", True), ("MC_AspScopes_sortonly.cfg", False),
-                ("MC_AspScopes_shallow.cfg", True), ("MC_AspScopes_consts.cfg", True)]
+                ("MC_AspScopes_shallow.cfg", True), ("MC_AspScopes_consts.cfg", True), ("MC_AspScopes_race.cfg", True),
+                ("MC_AspScopes_race_seq.cfg", False)]
     design = {}
 
     def mc(job):
@@ -178,7 +188,9 @@ def run_scopes(ctx, cases, conc_ids, rev_ids):
     obs = vlib.run_vh(ctx, "aspscopes", reqs, timeout=1500)
     conc = {}
     if conc_ids:
-        creqs = [dict(r, conc=(3 if ctx.quick else 8), par=2) for r in reqs if r["id"] in conc_ids]
+        racy = {c["id"] for c in cases if len(c["muts"]) == 1 and c["muts"][0]["tgt"] == "F" and c["muts"][0]["op"] in ("aug", "concat")}
+        creqs = [dict(r, conc=(150 if ctx.quick else 600), par=4) if r["id"] in racy else dict(r, conc=(3 if ctx.quick else 8), par=2)
+                 for r in reqs if r["id"] in conc_ids]
         try:
             conc = vlib.run_vh(ctx, "aspscopes", creqs, timeout=1500)
         except vlib.Infra as ex:
@@ -188,6 +200,68 @@ def run_scopes(ctx, cases, conc_ids, rev_ids):
             else:
                 raise
     return obs, conc
+
+
+def e2e_scopes(ctx, cases):
+    """The same programs through the real plz binary: a scratch repo with //build_defs:defs and the packages p1, p2;
+    `plz query print --json` of //p2's targets alone, after p1 (-n 1, p1 named first), before p1, and with -n 16.
+    Returns {id: [(kind, observed)]} for the cases where //p2 differs from //p2 alone."""
+    import os
+    import subprocess
+    plz = vlib.build_plz()
+    out = {}
+    root = os.path.join(ctx.scratch, "e2e")
+    home = os.path.join(root, "home")
+    os.makedirs(home, exist_ok=True)
+    env = dict(os.environ, HOME=home, XDG_CACHE_HOME=os.path.join(home, ".cache"), XDG_CONFIG_HOME=os.path.join(home, ".config"))
+
+    def query(repo, threads, labels):
+        p = subprocess.run([plz, "query", "print", "-n", str(threads), "--json", "-p", "-v", "0"] + labels, cwd=repo, env=env,
+                           stdout=subprocess.PIPE, stderr=subprocess.PIPE, text=True, timeout=120)
+        if p.returncode != 0:
+            return None
+        try:
+            d = json.loads(p.stdout)
+        except Exception:
+            return None
+        return {k: v for k, v in d.items() if k.startswith("//p2:")}
+
+    for c in cases:
+        repo = os.path.join(root, "r%d" % c["id"])
+        for d in ("build_defs", "p1", "p2"):
+            os.makedirs(os.path.join(repo, d), exist_ok=True)
+        with open(os.path.join(repo, ".plzconfig"), "w") as f:
+            f.write("[cache]\ndir = %s\n" % os.path.join(root, "cache%d" % c["id"]))
+        with open(os.path.join(repo, "build_defs", "BUILD"), "w") as f:
+            f.write('filegroup(name = "defs", srcs = ["defs.build_defs"], visibility = ["PUBLIC"])\n')
+        with open(os.path.join(repo, "build_defs", "defs.build_defs"), "w") as f:
+            f.write(render_defs(c["defs"]))
+        inc = 'subinclude("//build_defs:defs")\n'
+        with open(os.path.join(repo, "p1", "BUILD"), "w") as f:
+            f.write(inc + render_p1(c["muts"]))
+        with open(os.path.join(repo, "p2", "BUILD"), "w") as f:
+            f.write(inc + P2_SRC)
+        p2 = ["//p2:v", "//p2:fg", "//p2:gr"]
+        alone = query(repo, 1, p2)
+        if alone is None:
+            raise vlib.Infra("plz query print of the observer package alone fails in %s" % repo)
+        got = json.loads(alone["//p2:v"]["content"])
+        if {k: got[k] for k in PROBES} != expected_view(c["expect"])["values"]:
+            raise vlib.Infra("e2e: //p2 alone does not define the spec's Original: %s" % alone["//p2:v"]["content"])
+        probs = []
+        variants = [("e2e -n 1 P1-then-P2", 1, ["//p1:p1_done"] + p2), ("e2e -n 16", 16, ["//p1:p1_done"] + p2)]
+        if not ctx.quick:
+            variants.append(("e2e -n 1 P2-then-P1", 1, p2 + ["//p1:p1_done"]))
+        for kind, threads, labels in variants:
+            o = query(repo, threads, labels)
+            ctx.traces_validated += 1
+            if o is None:
+                continue            # P1 failed: plz reports the error and prints nothing
+            if o != alone:
+                probs.append((kind, o.get("//p2:v", {}).get("content")))
+        if probs:
+            out[c["id"]] = probs
+    return out
 
 
 @register("C17", claim=CLAIM17)
@@ -278,24 +352,53 @@ def run_c17(ctx):
                           % (key, c["p1err"], predicted, p1_failed, seq_leak))
         if probs:
             bad[c["id"]] = probs
+    # end to end with the real binary: one-attempt programs that evaluate, one per (operation, target) pair and access path sample
+    seen_pairs, pick = set(), []
+    for c in cases:
+        if len(c["muts"]) == 1 and not c["p1err"]:
+            k = (c["muts"][0]["op"], c["muts"][0]["tgt"]) if ctx.quick else mkey(c["muts"][0])
+            if k not in seen_pairs and (not ctx.quick or c["cls"] == "leak-candidate" or len(pick) < 4):
+                seen_pairs.add(k)
+                pick.append(c)
+    pick = pick[:3] if ctx.quick else pick[::max(1, len(pick) // 40)]
+    e2e = e2e_scopes(ctx, pick)
+    for cid, probs in e2e.items():
+        bad.setdefault(cid, [])
+        bad[cid] += probs
+    ctx.extra.update(e2e_cases=len(pick), e2e_cases_with_leak=len(e2e))
     # signatures: blame the attempts that leak on their own; a sequence none of whose attempts leaks alone is its own class
     single_bad = {mkey(c["muts"][0]) for c in cases if len(c["muts"]) == 1 and c["id"] in bad}
+    # an attempt that leaks only under concurrency is not blamed for a sequence that leaks sequentially
+    single_conc_only = {mkey(c["muts"][0]) for c in cases if len(c["muts"]) == 1 and c["id"] in bad
+                        and {k for k, _ in bad[c["id"]]} <= CONC_KINDS}
     for c in cases:
         if c["id"] not in bad:
             continue
-        culprits = [m for m in c["muts"] if mkey(m) in single_bad]
         kinds = sorted({k for k, _ in bad[c["id"]]})
+        culprits = [m for m in c["muts"] if mkey(m) in single_bad and (set(kinds) <= CONC_KINDS or mkey(m) not in single_conc_only)]
         detail = dict(case={k: c[k] for k in ("muts", "defs", "expect", "algo", "p1err", "cls")}, p1=render_p1(c["muts"]),
                       how=kinds, expected=expected_view(c["expect"]), observed=bad[c["id"]][0][1])
         if any(k in ("observer-not-repeatable", "mutator-depends-on-observer") for k in kinds) and not culprits:
             ctx.violation("C17 " + kinds[0], detail)
         elif culprits:
-            for s in sorted({sig_of(m) for m in culprits}):
+            # "(concurrent only)" marks attempts that never leak sequentially even on their own
+            for s in sorted({sig_of(m) + (" (concurrent only)" if mkey(m) in single_conc_only else "") for m in culprits}):
                 ctx.violation("C17 leak " + s, detail)
         elif len(c["muts"]) == 1:
-            ctx.violation("C17 leak " + sig_of(c["muts"][0]) + (" (concurrent only)" if kinds == ["concurrent"] else ""), detail)
+            ctx.violation("C17 leak " + sig_of(c["muts"][0]) + (" (concurrent only)" if set(kinds) <= CONC_KINDS else ""), detail)
         else:
-            ctx.violation("C17 leak combination=" + "+".join("%s:%s" % (OPNAME[m["op"]], m["tgt"]) for m in c["muts"]), detail)
+            # an append to the exported list with spare capacity returns a slice of the shared array; a later
+            # attempt on that slice is the class "mutating an append result"
+            app = [i for i, m in enumerate(c["muts"]) if m["tgt"] == "F" and m["op"] in ("aug", "concat")]
+            later = [m for i, m in enumerate(c["muts"]) if app and i > app[0] and m["tgt"] in ("x", "F")
+                     and m["op"] in ("idx", "sorted", "reversed")]
+            if app and set(kinds) <= CONC_KINDS:     # the race on the shared cell, seen on this sequence but not on the append alone
+                ctx.violation("C17 leak " + sig_of(c["muts"][app[0]]) + " (concurrent only)", detail)
+            elif later and not set(kinds) <= CONC_KINDS:
+                for s in sorted({OPNAME[m["op"]] for m in later}):
+                    ctx.violation("C17 leak via=%s on=append-result-sharing-exported-list-array" % s, detail)
+            else:
+                ctx.violation("C17 leak combination=" + "+".join("%s:%s" % (OPNAME[m["op"]], m["tgt"]) for m in c["muts"]), detail)
     ctx.traces_validated += sum(2 + ("alone" in o) + ("alone_again" in o) + 2 * ("before" in o) for o in obs.values())
     ctx.extra.update(p1_programs=len(cases), p1_failed_with_error=n_err, p1_evaluated=n_ok,
                      leak_candidates_predicted_by_model=n_pred, predicted_leaks_reproduced_on_code=n_repro,
